@@ -302,6 +302,7 @@ package pmm
 //@ func (alloc *BitmapAllocator) setupPoolBitmaps() (err *kernel.Error)
 //@   property C01 C03
 //@   rawstores
+//@   inline earlyAllocFrame
 //@   requires alloc != nil && vmm.wfReserve() && vmm.mapCalls < 0x1000000000000
 //@   at call reserveRegionFn 1: ghost reqBytes = requiredBytes
 //@   at after call reserveRegionFn 1: ghost dataAddr = vmm.earlyReserveLastUsed
